@@ -3,7 +3,8 @@
 Decided from the source:
  NONINTERFERENCE the requested count (raw n_to_select, its resolved value, the
              loop count) flows only into buffer extents, pad widths and the loop
-             range: no score table, residual, distance table or stored selection
+             range (also with a random first pick), and a score threshold that is
+             not reached flows into nothing: no score table, residual, distance table or stored selection
              value after fit carries its label, and none of those values mentions
              the requested extent except through prefix reads [:n_selected_]
              (one recorded exception: PCov-CUR feature direction hands the whole
